@@ -481,3 +481,7 @@ fn test_yuv420_to_rgba_medium() {
         ]
     );
 }
+
+#[cfg(any(kani, ruffle_rs_h263_rs_verif))]
+#[path = "/verif/hooks/yuv/bt601.rs"]
+mod verif_hook;
